@@ -37,7 +37,8 @@ LEVEL_TEXT = ("Machine-checked Coq theorems, for every sequence over an abstract
               "both dtypes and materialize() inside Coq; a literal property oracle on the implementation supplies replayable failing inputs.")
 LEVEL_NOTE = ("Trusted: Coq kernel + vm_compute; the hand-written models of the five columns and of the NumPy fragment they use "
               "(array dtype inference for homogeneous Python lists and int/float/bool mixes, scalar conversions, ==/!= promotion, unique's order), "
-              "validated by correspondence, not verified. Outside the model (generators stay inside): text mixed with numbers in one list, "
+              "validated by correspondence, not verified. Outside the model (generators stay inside): text mixed with numbers in one list WITHOUT a null "
+              "(with a null it is an object array: modelled, proved to keep every element as it is - C09_np_array_keeps_objects, C09_sparse_object_null_exact - and generated), "
               "integers outside int64 in the data, NUL characters in text, lower-case non-ASCII letters under 'upper'. "
               "Partial: totality of the sparse constructor and exactness of its default test carry guards (known findings F-C09-3, F-C09-4, F-C09-5, each with a _refuted witness); "
               "'equal to the default' is Python/NumPy ==, so -0.0 stored under default 0.0 comes back as 0.0 and 1.0 under default 1 as the data's own kind. "
@@ -84,6 +85,9 @@ RULE = ("real RLEColumn / DictionaryColumn / SparseColumn / ConstantColumn / Fun
         "(thorough 4) over {a, b, null} for 6 alphabets x declared default a / b x sparse default_value None / left out; values handed over as list, tuple or ndarray; "
         "multi-step scripts now also copy the object (copy.copy / copy.deepcopy / pickle round trip, going on with the copy or with the original) and read every "
         "earlier expansion again, and every script is evaluated in Coq (script_np) as well as judged by the oracle; "
+        "object arrays of several kinds: all sequences of length <= 4 (thorough 5) holding a null over {a, b, null} for 12 pairs of different kinds (int/float, "
+        "2**53+1/float, bool/int, 1/1.0, True/1, False/0.0, number/text) as sparse columns around null, run-length columns, sparse around a or b, copy / reread scripts and "
+        "*2 / +1 on the stored values, judged type-strictly at every position (an object array unifies nothing); random mixed data has nulls 60 % of the time and text next to numbers; "
         "boundary sweep (fixed permutations + seeded sizes): number of dictionary entries, run length, number of runs, sparse index / total length / "
         "number of stored values, constant and function length just below, at and above 2^7, 2^8, 2^15, 2^16; "
         "a case is non-trivial when it expanded without raising and holds >= 2 elements (constant/function: length >= 1); distinct by canonical JSON")
@@ -682,12 +686,44 @@ def _same(o, e, relaxed):
     return o == e
 
 
-def _seq_same(got, want, what):
+def _strict_positions(kind, values, default=None):
+    """Round 7.  A list holding a null becomes an OBJECT array: NumPy unifies nothing there, every element stays the
+    Python object it was, so "neither truncated nor narrowed to another type" is judged type-strictly even when the
+    list mixes kinds (1 next to 2.5 next to True next to 'a').  Returns one flag per position (True = the type must
+    come back as well), or None where the old rule applies (no null in the input: numpy.array unifies the kinds on
+    input, equal by == only).  Positions that stay under the old rule inside an object array: a sparse element that
+    is == the default but of another type (NumPy's != calls it the default - the F-C09-5 situation), and a run-length
+    run whose members are == but of different types (the run is stored as its head)."""
+    if kind not in ("sparse", "rle") or not any(v is None for v in values):
+        return None
+    old = not _mixed(values)
+    if kind == "sparse":
+        d = default
+        def collides(v):
+            if v is None or d is None or isinstance(v, str) or isinstance(d, str):
+                return False
+            return v == d and type(v) is not type(d)
+        return [old if collides(v) else True for v in values]
+    flags = []
+    i = 0
+    while i < len(values):
+        j = i + 1
+        while j < len(values) and _py_eq(values[j], values[j - 1]):
+            j += 1
+        one_type = len({type(v) for v in values[i:j]}) == 1
+        flags.extend([True if one_type else old] * (j - i))
+        i = j
+    return flags
+
+
+def _seq_same(got, want, what, strict=None):
     if len(got) != len(want):
         return f"{what}: length {len(got)}, required {len(want)}"
     relaxed = _mixed(want)
+    if strict is not None and len(strict) != len(want):
+        strict = None
     for i, (o, e) in enumerate(zip(got, want)):
-        if not _same(o, e, relaxed):
+        if not _same(o, e, relaxed and not (strict is not None and strict[i])):
             return f"{what}: position {i} holds {o!r} ({type(o).__name__}), required {e!r} ({type(e).__name__})"
     return None
 
@@ -710,12 +746,15 @@ def _oracle_script(case, obs):
         n = None
         if kind == "dict" and any(v is None for v in cur):
             return None  # the dictionary encoding does not support nulls
+        strict = _strict_positions(kind, cur, dec(case["default"]) if kind == "sparse" else None)
     if failed_at == -1:
         if n is not None and n < 0:
             return None
         return f"{kind} column must build, raised {obs['raise']} in init"
     done = []
     scribbled = False
+    if n is not None:
+        strict = None
     for i, st in enumerate(script):
         if failed_at is not None and i == failed_at:
             if obs["stage"] == "mat" and not (n is not None and n < 0):
@@ -729,7 +768,7 @@ def _oracle_script(case, obs):
             want = cur * n if n is not None else cur
             why = _seq_same([dec(x) for x in steps[i]["mat"]], want,
                             f"step {i} of {script}: expansion after {done or 'nothing'}" +
-                            (" and after a caller overwrote an earlier expansion" if scribbled else ""))
+                            (" and after a caller overwrote an earlier expansion" if scribbled else ""), strict)
             if why:
                 return why
         elif st == "scribble":
@@ -845,7 +884,8 @@ def oracle(case, obs):
         if not fixed:
             return None  # a sparse encoding cannot know f(default); the property needs f default = default
     want = [_pyf(fn, v) for v in values]
-    return _seq_same(mat, want, f"{kind} column" + (f" after {fn}" if fn else ""))
+    strict = _strict_positions(kind, values, dec(case["default"]) if kind == "sparse" else None)
+    return _seq_same(mat, want, f"{kind} column" + (f" after {fn}" if fn else ""), strict)
 
 
 # ----------------------------------------------------------------------------------------------
@@ -1590,6 +1630,40 @@ def _declared_default_fixed(tier):
             yield dict(_sparse(seq + [None], None), decl=d, default_omitted=True, script=["mat", "scribble", "mat"])
 
 
+# ---- round 7: object arrays holding several kinds --------------------------------------------------------------
+# A list with a null in it becomes an object array: nothing is unified, so an int next to a float, a bool next to an
+# int, a number next to text must each come back as the object it was (2**53+1 exactly, True as True, 1 not '1').
+# Pairs of two different kinds (some equal by ==, some beyond 2**53, some text), always together with null.
+_ALPHABETS_OBJECT = [(1, 2.5), (2 ** 53 + 1, 0.5), (1, 1.0), (True, 2), (True, 1), (False, 0.0), (-7, -7.5),
+                     (1, "a"), ("1", 1), (1.5, "abc"), (True, "x"), (0, "")]
+
+
+def _object_mixed_fixed(tier):
+    top = 4 if tier == "quick" else 5
+    n = 0
+    for k in range(1, top + 1):
+        for seq in itertools.product(range(3), repeat=k):
+            if 2 not in seq:
+                continue  # no null: not an object array (NumPy unifies the kinds / stringifies) - the random "mixed" data
+            for ab in _ALPHABETS_OBJECT:
+                a = (ab[0], ab[1], None)
+                vals = [a[i] for i in seq]
+                n += 1
+                c = _sparse(vals, None)
+                if n % 3 == 0:
+                    c["default_omitted"] = True
+                yield c
+                if k < top:
+                    yield {"col": "rle", "values": [enc(v) for v in vals], "fn": None}
+                    yield _sparse(vals, ab[n % 2])            # one of the two kinds is the default: the nulls are stored
+                    yield dict(_sparse(vals, None), script=["mat", ["copy", ("pickle", "deepcopy", "copy")[n % 3], "copy"], "mat", "scribble", "reread", "mat"])
+                    numeric = not any(isinstance(x, str) for x in ab) and all(abs(x) < 2 ** 53 for x in ab)
+                    if numeric:
+                        # element-wise function on the stored values of an object array = Python's own * and + per element
+                        yield _sparse(vals, None, ("mul2", "add1")[n % 2])
+                        yield dict(_sparse(vals, None), script=["mat", ["fn", "mul2", ("inplace", "rebind")[n % 2]], "mat", "reread", ["fn", "add1", "rebind"], "mat"])
+
+
 def exhaustive(tier):
     top = 4 if tier == "quick" else 5
 
@@ -1631,8 +1705,13 @@ def exhaustive(tier):
             yield c
         for c in _scale_fixed(tier):
             yield c
+        for c in _object_mixed_fixed(tier):
+            yield c
 
-    return it(), (f"all sequences of length <= {top} over {{a, b, default}} for {len(_ALPHABETS_SPARSE)} sparse, "
+    return it(), (f"object arrays of two kinds: all sequences of length <= {top} holding a null over {{a, b, null}} for {len(_ALPHABETS_OBJECT)} pairs a, b of "
+                  f"different kinds (int/float, int beyond 2^53/float, bool/int, equal-but-different 1/1.0 True/1 False/0.0, number/text) as sparse columns around null "
+                  f"(length < {top}: also run-length, sparse around a or b, copy / reread scripts, *2 and +1 on the stored values); "
+                  f"all sequences of length <= {top} over {{a, b, default}} for {len(_ALPHABETS_SPARSE)} sparse, "
                   f"{len(_ALPHABETS_RLE)} run-length and {len(_ALPHABETS_DICT)} dictionary alphabets; constant/function lengths 0..{top}; "
                   f"multi-step: all sequences of length < {top} over 3 alphabets x 4 scripts (expand / function in place and by rebinding / "
                   f"overwrite an earlier expansion / expand) on one run-length, dictionary and sparse column object, constant and function columns with a length change; "
@@ -1667,7 +1746,7 @@ def _sequence(rng, pool, n):
     return out
 
 
-def _data(rng, allow_null=True, allow_mixed=True):
+def _data(rng, allow_null=True, allow_mixed=True, allow_text_mix=False):
     """(kind, python list)"""
     n = rng.choice([0, 1, 2, 3, 3, 4, 5, 6, 8, 12, 12, 20, 40])
     r = rng.random()
@@ -1683,9 +1762,14 @@ def _data(rng, allow_null=True, allow_mixed=True):
         kind, pool = "mixed", _SMALL_INTS + [1.5, 0.5, 2.0, 1.0, 0.0, True, False]
     else:
         kind, pool = "int", _INTS
+    text_mix = False
+    if kind == "mixed" and allow_text_mix and allow_null and n and rng.random() < 0.4:
+        # numbers next to text: only as an object array (with a null; without one NumPy stringifies - not modelled)
+        kind, text_mix = "mixedtext", True
+        pool = pool + ["a", "1", "", "1.5", "True", "abc", "É"]
     seq = _sequence(rng, pool, n)
     nulls = False
-    if allow_null and rng.random() < 0.3 and n:
+    if allow_null and (text_mix or rng.random() < (0.6 if kind == "mixed" else 0.3)) and n:
         nulls = True
         seq = [None if rng.random() < 0.35 else v for v in seq]
         if not any(v is None for v in seq):
@@ -1720,8 +1804,8 @@ def _fn_for(rng, kind, seq, nulls_stored):
 def _random_case(rng, weights=(0.4, 0.6, 0.8, 0.9)):
     r = rng.random()
     if r < weights[0]:
-        kind, seq, nulls = _data(rng)
-        dk = kind if kind != "mixed" else rng.choice(["int", "float"])
+        kind, seq, nulls = _data(rng, allow_text_mix=True)
+        dk = kind if kind not in ("mixed", "mixedtext") else rng.choice(["int", "float"] + (["text"] if kind == "mixedtext" else []))
         rr = rng.random()
         if rr < 0.25 and seq:
             d = rng.choice(seq)
@@ -1735,7 +1819,7 @@ def _random_case(rng, weights=(0.4, 0.6, 0.8, 0.9)):
             fn = None
         return _sparse(seq, d, fn)
     if r < weights[1]:
-        kind, seq, nulls = _data(rng)
+        kind, seq, nulls = _data(rng, allow_text_mix=True)
         return {"col": "rle", "values": [enc(v) for v in seq], "fn": _fn_for(rng, kind, seq, nulls)}
     if r < weights[2]:
         kind, seq, nulls = _data(rng, allow_null=rng.random() < 0.08)
